@@ -983,7 +983,8 @@ class DateTime(datetime.datetime, Date):
         while dt.day_of_week != day_of_week:
             dt = dt.add(days=1)
 
-        return dt
+        # The day we started from may begin later than midnight
+        return dt if keep_time else dt.start_of("day")
 
     def previous(
         self, day_of_week: WeekDay | None = None, keep_time: bool = False
@@ -1006,7 +1007,8 @@ class DateTime(datetime.datetime, Date):
         while dt.day_of_week != day_of_week:
             dt = dt.subtract(days=1)
 
-        return dt
+        # The day we started from may begin later than midnight
+        return dt if keep_time else dt.start_of("day")
 
     def first_of(self, unit: str, day_of_week: WeekDay | None = None) -> Self:
         """
@@ -1021,7 +1023,10 @@ class DateTime(datetime.datetime, Date):
         if unit not in ["month", "quarter", "year"]:
             raise ValueError(f'Invalid unit "{unit}" for first_of()')
 
-        return cast("Self", getattr(self, f"_first_of_{unit}")(day_of_week))
+        return cast(
+            "Self",
+            getattr(self._day(), f"_first_of_{unit}")(day_of_week).start_of("day"),
+        )
 
     def last_of(self, unit: str, day_of_week: WeekDay | None = None) -> Self:
         """
@@ -1036,7 +1041,10 @@ class DateTime(datetime.datetime, Date):
         if unit not in ["month", "quarter", "year"]:
             raise ValueError(f'Invalid unit "{unit}" for first_of()')
 
-        return cast("Self", getattr(self, f"_last_of_{unit}")(day_of_week))
+        return cast(
+            "Self",
+            getattr(self._day(), f"_last_of_{unit}")(day_of_week).start_of("day"),
+        )
 
     def nth_of(self, unit: str, nth: int, day_of_week: WeekDay) -> Self:
         """
@@ -1051,14 +1059,24 @@ class DateTime(datetime.datetime, Date):
         if unit not in ["month", "quarter", "year"]:
             raise ValueError(f'Invalid unit "{unit}" for first_of()')
 
-        dt = cast(Optional["Self"], getattr(self, f"_nth_of_{unit}")(nth, day_of_week))
+        dt = cast(
+            Optional["Self"], getattr(self._day(), f"_nth_of_{unit}")(nth, day_of_week)
+        )
         if not dt:
             raise PendulumException(
                 f"Unable to find occurrence {nth}"
                 f" of {WeekDay(day_of_week).name.capitalize()} in {unit}"
             )
 
-        return dt
+        return dt.start_of("day")
+
+    def _day(self) -> Self:
+        """
+        The day of the instance, to navigate from: the time of day
+        and the fold of the instance must not decide how a skipped
+        or repeated midnight is resolved on another date.
+        """
+        return self.start_of("day").replace(fold=1)
 
     def _first_of_month(self, day_of_week: WeekDay | None = None) -> Self:
         """
